@@ -46,7 +46,7 @@ REACHED = {"n": 0}
 def dtypes():
     global GOOD, BAD
     if GOOD is None:
-        GOOD = strax.time_fields + [(("value field v0", "v0"), np.int64)]
+        GOOD = strax.time_fields + [(("value field v0", "v0"), np.int64), (("array field w", "w"), np.int16, (4,))]
         BAD = strax.time_fields + [(("value field v0", "v0"), np.float32), (("surprise", "zz"), np.int16)]
     return GOOD, BAD
 
@@ -59,6 +59,21 @@ def good_arr(rows):
         a["endtime"] = [r[1] for r in rows]
         a["v0"] = [r[2] for r in rows]
     return a
+
+
+def plain(dt):
+    """dtype without titles, array shapes kept - computed here, not with strax's own helper (which is under test)."""
+    dt = np.dtype(dt)
+    return np.dtype([(n, dt.fields[n][0]) for n in dt.names])
+
+
+def to_shape(a):
+    """Same field names and element types, but another length of the array field."""
+    dt = [(d if d[0][1] != "w" else (d[0], d[1], (3,))) for d in dtypes()[0]]
+    x = np.zeros(len(a), dtype=dt)
+    for n in ("time", "endtime", "v0"):
+        x[n] = a[n]
+    return x
 
 
 def to_bad(a):
@@ -87,6 +102,11 @@ def corrupt(plugin, res, kind, start, end, dt):
     if kind == "dtype_chunk_declared":
         # chunk claims the declared dtype but carries other data
         return direct_chunk(plugin, to_bad(res), start, end, dt, dtype=plugin.dtype_for(dt))
+    if kind == "dtype_shape":
+        return to_shape(res)
+    if kind == "dtype_shape_chunk":
+        bad = to_shape(res)
+        return direct_chunk(plugin, bad, start, end, dt, dtype=bad.dtype)
     if kind == "dtype_selfchunk":
         return plugin.chunk(start=start, end=end, data=to_bad(res), data_type=dt)
     if kind == "late_row":
@@ -336,10 +356,10 @@ def make_plugins(case):
 
 
 APPLICABLE = {
-    "source": ["dtype_chunk", "dtype_chunk_declared", "dtype_selfchunk", "late_row", "late_row_inner", "early_row", "label", "gap", "overlap",
+    "source": ["dtype_chunk", "dtype_chunk_declared", "dtype_selfchunk", "dtype_shape_chunk", "late_row", "late_row_inner", "early_row", "label", "gap", "overlap",
                "gap_zero", "overlap_zero"],
-    "ordinary": ["dtype_bare", "dtype_chunk", "dtype_chunk_declared", "dtype_selfchunk", "late_row", "late_row_inner", "early_row", "label"],
-    "multi": ["dtype_bare", "dtype_chunk", "dtype_chunk_declared", "late_row", "late_row_inner", "label", "nondict",
+    "ordinary": ["dtype_bare", "dtype_chunk", "dtype_chunk_declared", "dtype_selfchunk", "dtype_shape", "dtype_shape_chunk", "late_row", "late_row_inner", "early_row", "label"],
+    "multi": ["dtype_bare", "dtype_chunk", "dtype_chunk_declared", "dtype_shape", "late_row", "late_row_inner", "label", "nondict",
               "sibling_label", "sibling_chunk"],
     "down": ["dtype_chunk", "dtype_chunk_declared", "dtype_selfchunk", "label", "late_row", "late_row_inner", "gap", "overlap", "nongen", "nonchunk",
              "gap_zero", "overlap_zero"],
@@ -351,7 +371,7 @@ APPLICABLE = {
 
 def contract_errors(chunk, target, declared, prev_end):
     errs = []
-    if strax.remove_titles_from_dtype(chunk.data.dtype) != strax.remove_titles_from_dtype(declared):
+    if plain(chunk.data.dtype) != plain(declared):
         errs.append(f"yielded data of dtype {chunk.data.dtype}, declared {declared}")
     if chunk.data_type != target:
         errs.append(f"yielded chunk labelled {chunk.data_type}, requested {target}")
